@@ -429,7 +429,11 @@ func (P *Program) externEffects(key string, fc *FuncContract, c *ssa.CallCommon)
 						panic(unsupported("unknown ghost %s", pat))
 					}
 					srt, _ := ghostSort(g.Ret)
-					e.comps["|G:"+g.Name+"|"] = "(Array Int " + srt + ")"
+					ks := "Int"
+					if len(g.Params) > 0 && g.Params[0].Type == "addr" {
+						ks = "Addr"
+					}
+					e.comps["|G:"+g.Name+"|"] = "(Array " + ks + " " + srt + ")"
 				} else {
 					panic(unsupported("extern modifies pattern %s (use elems(x) or ghost:name)", pat))
 				}
